@@ -58,6 +58,16 @@ def run(tier):
         cmds.append("\t".join(["run", str(len(cmds)), "max=300,t=30", zw.hexq(p)])); meta.append(("runtime", p))
     for p, f in dwq:
         cmds.append("\t".join(["run", str(len(cmds)), "max=300,t=60", zw.hexq(p), os.path.join(tests, f)])); meta.append(("dwarf", p))
+    # deep stacks of mixed types, popped several times in a row (drop, or an id block), then a word that
+    # dispatches on the cached type profile (tla/Stack.tla): a stale profile selects an overload for
+    # values of another class
+    lits = {"0": "1", "1": '"s"', "2": "[]"}
+    import itertools
+    for kinds in itertools.product("012", repeat=5):
+        base = " ".join(lits[k] for k in kinds)
+        for tail in ("drop drop drop add", "drop drop drop drop length", "(|A B C| add)", "(|A B C| ?eq) 7", "drop drop (|A| swap add)"):
+            p = base + " " + tail
+            cmds.append("\t".join(["run", str(len(cmds)), "max=50,t=30", zw.hexq(p)])); meta.append(("deep", p))
     # abandonment after every pull count (hist: execute, k pulls, destroy)
     aband = rng.sample(progs, 150 if tier == "quick" else 1500) + [p for p, f in dwq[:0]]
     for p in aband:
